@@ -7,8 +7,8 @@ package main
 import (
 	"crypto/sha1"
 	"fmt"
-	"hash/crc32"
 	"go/types"
+	"hash/crc32"
 	"net"
 	"strconv"
 	"strings"
